@@ -10,7 +10,7 @@ Import ListNotations.
 Open Scope Z_scope.
 
 
-Definition SampleN_call {F : Type} (round_mul : Z -> F -> option Z) (choice : Z -> Z -> option (list nat)) (argsort : list Z -> list nat) (self_n : Z) (self_fraction : F) (len : Z) (col : option (list Z)) : hres :=
+Definition SampleN_call {F : Type} (round_mul : Z -> F -> option Z) (choice : Z -> Z -> option (list nat)) (argsort : list Z -> list nat) (self_n : Z) (len : Z) (col : option (list Z)) : hres :=
   if (len <=? self_n) then HOk (all_idx len)
   else match choice len self_n with
   | None => HErr EValue
@@ -18,7 +18,7 @@ Definition SampleN_call {F : Type} (round_mul : Z -> F -> option Z) (choice : Z 
   HOk sel
   end.
 
-Definition SampleFrac_call {F : Type} (round_mul : Z -> F -> option Z) (choice : Z -> Z -> option (list nat)) (argsort : list Z -> list nat) (self_n : Z) (self_fraction : F) (len : Z) (col : option (list Z)) : hres :=
+Definition SampleFrac_call {F : Type} (round_mul : Z -> F -> option Z) (choice : Z -> Z -> option (list nat)) (argsort : list Z -> list nat) (self_fraction : F) (len : Z) (col : option (list Z)) : hres :=
   match round_mul len self_fraction with
   | None => HErr EValue
   | Some n =>
@@ -29,7 +29,7 @@ Definition SampleFrac_call {F : Type} (round_mul : Z -> F -> option Z) (choice :
   end
   end.
 
-Definition LastN_call {F : Type} (round_mul : Z -> F -> option Z) (choice : Z -> Z -> option (list nat)) (argsort : list Z -> list nat) (self_n : Z) (self_fraction : F) (len : Z) (col : option (list Z)) : hres :=
+Definition LastN_call {F : Type} (round_mul : Z -> F -> option Z) (choice : Z -> Z -> option (list nat)) (argsort : list Z -> list nat) (self_n : Z) (len : Z) (col : option (list Z)) : hres :=
   if (len <=? self_n) then HOk (all_idx len)
   else match col with
   | None => HErr EType
@@ -38,7 +38,7 @@ Definition LastN_call {F : Type} (round_mul : Z -> F -> option Z) (choice : Z ->
   HOk (py_slice ordered (Some ((Z.of_nat (length ordered)) - self_n)) None)
   end.
 
-Definition LastFrac_call {F : Type} (round_mul : Z -> F -> option Z) (choice : Z -> Z -> option (list nat)) (argsort : list Z -> list nat) (self_n : Z) (self_fraction : F) (len : Z) (col : option (list Z)) : hres :=
+Definition LastFrac_call {F : Type} (round_mul : Z -> F -> option Z) (choice : Z -> Z -> option (list nat)) (argsort : list Z -> list nat) (self_fraction : F) (len : Z) (col : option (list Z)) : hres :=
   match round_mul len self_fraction with
   | None => HErr EValue
   | Some n =>
